@@ -18,6 +18,7 @@ records the alternatives it did not take; `explore()` replays every alternative.
 is a plain deterministic interpretation.  Anything the engine cannot interpret exactly
 raises Unsupported, which the checks turn into "analysis broken" (exit 2) - never a guess.
 """
+import os
 import re
 from facts import AnalysisBroken, children, unwrap
 
@@ -762,10 +763,35 @@ class Interp:
         if k == 'VAArgExpr':
             raise Unsupported('va_arg')
         if k == 'OffsetOfExpr':
-            raise Unsupported('offsetof')
+            return self.offsetof(e)
         if k == 'StmtExpr':
             raise Unsupported('statement expression')
         raise Unsupported('ev %s at %s' % (k, self.where(e)))
+
+    def offsetof(self, e):
+        """the JSON dump carries neither the type nor the member of offsetof: read them from the source text at the expression's position"""
+        import re as _re
+        f = e.get('file'); ln = e.get('line'); col = e.get('col')
+        try:
+            from facts import REPO as _R
+            repo = getattr(self.p, 'repo', None) or os.environ.get('VERIF_REPO') or _R
+            text = open(os.path.join(repo, f) if not os.path.isabs(f or '') else f, errors='replace').read().split('\n')[ln - 1][max((col or 1) - 1, 0):]
+        except Exception as x:
+            raise Unsupported('offsetof (source text unavailable: %s)' % x)
+        m = _re.match(r'(?:__builtin_)?offsetof\s*\(\s*(struct|union)\s+(\w+)\s*,\s*(\w+)\s*\)', text)
+        if not m:
+            raise Unsupported('offsetof of the form %r' % text[:40])
+        rec = self.p.recbyname.get(m.group(2))
+        if rec is None:
+            raise Unsupported('offsetof: unknown record %s' % m.group(2))
+        off = 0
+        for c in [c for c in rec.get('inner', []) if c.get('kind') == 'FieldDecl']:
+            fs, fa = self.p.sizeof_type(c['type'].get('desugaredQualType', c['type']['qualType']))
+            if rec.get('tagUsed') != 'union': off = (off + fa - 1) // fa * fa
+            if c.get('name') == m.group(3):
+                return off if rec.get('tagUsed') != 'union' else 0
+            if rec.get('tagUsed') != 'union': off += fs
+        raise Unsupported('offsetof: no member %s in %s' % (m.group(3), m.group(2)))
 
     def cast(self, e, env):
         ck = e.get('castKind')
@@ -1470,6 +1496,23 @@ def m_memset(it, args, e):
     q = _pointee_q(e['inner'][1])
     if q is None:
         raise Unsupported('memset pointee type unknown')
+    ti = it.tinfo(q)
+    total = it.p.sizeof_type(q)[0] if ti[0] in ('rec', 'arr') or True else None
+    if isinstance(n, int) and total is not None and n != total:
+        # a partial fill: only the members that lie completely inside the first n bytes are zeroed
+        if n > total:
+            raise Terminal('oob', 'memset of %d bytes over an object of %d bytes' % (n, total))
+        if ti[0] != 'rec' or ti[1].get('tagUsed') == 'union':
+            raise Unsupported('partial memset of a non-structure')
+        off = 0
+        for f in [c for c in ti[1].get('inner', []) if c.get('kind') == 'FieldDecl']:
+            fq = qstr(f['type'])
+            fs, fa = it.p.sizeof_type(f['type'].get('desugaredQualType', f['type']['qualType']))
+            off = (off + fa - 1) // fa * fa
+            if off + fs <= n:
+                it.zero(p.obj, p.path + (f['name'],) if f.get('name') else p.path, fq)
+            off += fs
+        return p
     it.zero(p.obj, p.path, q)
     return p
 
